@@ -213,6 +213,11 @@ def operator_octet(prog, rep, clsq, rule='R07.h', decode=True):
                         shrink = c
                     if isinstance(c, ast.Subscript) and isinstance(c.slice, ast.Slice):
                         shrink = c
+                    # int.to_bytes with a size computed from bit_length(): 0 has bit length 0, hence no octet at all
+                    if isinstance(c, ast.Call) and isinstance(c.func, ast.Attribute) and c.func.attr == 'to_bytes' and \
+                            c.args and 'bit_length' in src_of(c.args[0]) and 'max(' not in src_of(c.args[0]) and \
+                            ' or ' not in src_of(c.args[0]):
+                        shrink = c
         if shrink is not None:
             rep.bad(rule, key, file=fo.file, line=shrink.lineno, func=fo.qualname,
                     found='the operand bytes are produced by %s, which is empty for the operand 0: the operator octet '
@@ -361,6 +366,42 @@ def flowspec_component_types(prog, rep):
     rep.floor('R07.m', 'flowspec component types decoded', len(dec), 11)
 
 
+def prefix_padded_before_conversion(prog, rep):
+    """R07.b: the prefix octets of a route (0..4 / 0..16 of them, none for a /0) are padded with zero octets before
+    they are turned into a number: int(b2a_hex(b''), 16) and struct.unpack('!I', b'') raise."""
+    n = 0
+    for qual in (VPN + '.parse', 'yabgp.message.attribute.nlri.ipv6_unicast.IPv6Unicast.parse',
+                 'yabgp.message.attribute.nlri.labeled_unicast.LabeledUnicast.parse'):
+        f = prog.func(qual)
+        convs = []
+        for c in ast.walk(f.node):
+            if isinstance(c, ast.Call) and src_of(c.func) == 'binascii.b2a_hex' and c.args and isinstance(c.args[0], ast.Name):
+                convs.append((c, c.args[0].id))
+            if isinstance(c, ast.Call) and src_of(c.func) == 'struct.unpack' and len(c.args) == 2 and \
+                    isinstance(c.args[1], ast.Name) and isinstance(c.args[0], ast.Constant) and c.args[0].value in ('!I', '!L'):
+                convs.append((c, c.args[1].id))
+        for c, var in convs:
+            n += 1
+            key = 'prefix-padded:%s:%s' % (qual.rsplit('.', 2)[-2], var)
+            def zero_pad(e):
+                return any(isinstance(k, ast.Constant) and isinstance(k.value, bytes) and set(k.value) == {0}
+                           for k in ast.walk(e))
+            pads = [a for a in ast.walk(f.node) if a.__class__ in (ast.AugAssign, ast.Assign) and a.lineno < c.lineno and
+                    any(isinstance(t, ast.Name) and t.id == var
+                        for t in ([a.target] if isinstance(a, ast.AugAssign) else a.targets)) and
+                    zero_pad(a.value) and (isinstance(a, ast.Assign) or isinstance(a.op, ast.Add))]
+            if pads:
+                if not any(i.key == key for i in rep.instances):
+                    rep.ok('R07.b', key, file=f.file, line=c.lineno, found='padded at line %d' % pads[0].lineno, key=key)
+            else:
+                rep.bad('R07.b', key, file=f.file, line=c.lineno, func=qual,
+                        found='%s converts the received prefix octets `%s` without padding them first: a route of prefix '
+                              'length 0 carries no octet and the conversion raises, the whole attribute is lost' % (
+                                  src_of(c)[:60], var), expected='zero padding to the address width before the conversion',
+                        key=key)
+    rep.floor('R07.b', 'prefix conversions in the route decoders', n, 3)
+
+
 def one_nlri_per_route(prog, rep):
     nfun = 0
     bad = []
@@ -445,7 +486,7 @@ def check(prog, rep, tier):
                       'table keyed by the complete, un-rebound argument list is the one exception)')
     rep.rule('R07.o', '1..n routes per attribute: no NLRI encoder folds the route list it is given into a dictionary or set '
                       '(a key that leaves out part of the route merges distinct routes; the decoded list comes back shorter)')
-    rep.rule('R07.l', 'unsigned wire: no signed struct code in any format string of the NLRI / MP codecs')
+    rep.rule('R07.l', 'unsigned wire: no signed struct code and no pad code (x) in any format string of the NLRI / MP codecs')
     rep.assumptions += ['value equality of the round trip is not decided',
                         'a MAC address has six groups (b"".join of one octet per group is 6 octets)']
 
@@ -773,7 +814,7 @@ def check(prog, rep, tier):
     # ---------------------------------------------------------------- R07.l
     common.report_signed_formats(prog, rep, 'R07.l', lambda fn: fn.module.name.startswith((
         'yabgp.message.attribute.nlri', 'yabgp.message.attribute.mpreachnlri', 'yabgp.message.attribute.mpunreachnlri')),
-        60)
+        60, pad=True)
 
     # ---------------------------------------------------------------- R07.i
     common.report_boundary_splits(prog, rep, 'R07.i', lambda fn: fn.module.name.startswith((
@@ -792,6 +833,7 @@ def check(prog, rep, tier):
 
     # ---------------------------------------------------------------- R07.o
     one_nlri_per_route(prog, rep)
+    prefix_padded_before_conversion(prog, rep)
 
     # ---------------------------------------------------------------- R07.d
     def const_compares(qual, var):
